@@ -220,25 +220,20 @@ func (m Mounts) GetOverlayLowerdirs() map[string]bool {
 
 
 func unescape(str string) string {
-	out := []byte(str)
-	outp := 0
-	octal := -1
-	for _, c := range out {
-		if c == '\\' {
-			octal = 0
-			continue
-		}
-		if octal > -1 {
-			if c >= '0' && c < '8' && octal < 32 {
-				octal = octal * 8 + int(c - '0')
-				continue
-			}
-			c = byte(octal)
-			octal = -1
-		}
-		out[outp] = c
-		outp++
+	isOctal := func(c byte) bool {
+		return c >= '0' && c < '8'
 	}
-	return string(out[:outp])
+	out := make([]byte, 0, len(str))
+	for i := 0; i < len(str); i++ {
+		c := str[i]
+		if c == '\\' && i + 3 < len(str) && isOctal(str[i + 1]) && isOctal(str[i + 2]) &&
+			isOctal(str[i + 3]) {
+			c = byte(int(str[i + 1] - '0') * 64 + int(str[i + 2] - '0') * 8 +
+				int(str[i + 3] - '0'))
+			i += 3
+		}
+		out = append(out, c)
+	}
+	return string(out)
 }
 
